@@ -51,6 +51,7 @@ SPEC = {
   ],
   'assumptions': [
     'nested State <-> flat path map conversions are the identity on prefix-free path maps (property C16)',
+    'generic pytree containers (NamedTuple, OrderedDict, struct.dataclass) are not value forms of the heap model: their flatten/unflatten permutation is modelled and proved separately (pytree_unflatten_flatten_id, any declared order) and graphs holding them are checked on the implementation only (stream generic-pytree: isomorphism incl. field positions, aliasing, freshness, source unchanged, state, update(state))',
     'a State is a mapping: the model takes each state as an ORDERED list of (path, leaf) pairs in any order and sorts the concatenation, so merge_any_order covers unsorted insertion order inside one state (merge_state / | / from_flat_path / hand-written dicts); the harness feeds such re-joined and shuffled mappings to nnx.merge',
     'pytree containers are values: a list/dict object shared by two graph nodes is duplicated by split/merge (finding F8, known, key shared-pytree-container)',
     'array leaves and Variable values are opaque immutable payloads (interned to integers); nnx.clone shares NumPy buffers by reference (observation)',
@@ -115,6 +116,23 @@ VTYPES = {
   'MyParam': MyParam,
   'Variable': nnx.Variable,
 }
+
+
+import collections as _collections
+from flax import struct as _struct
+
+Affine = _collections.namedtuple('Affine', ['weight', 'bias', 'child'])  # sorted: bias, child, weight (a 3-cycle)
+Quad = _collections.namedtuple('Quad', ['z', 'm', 'a', 'k'])  # sorted: a, k, m, z (a 4-cycle)
+
+
+@_struct.dataclass
+class Blk:
+  w: object
+  b: object
+  c: object
+
+
+GENERIC = {'Affine': Affine, 'Quad': Quad, 'Blk': Blk, 'OrderedDict': _collections.OrderedDict}
 
 
 def mro_names(cls):
@@ -226,6 +244,11 @@ def build(G, shared=None):
       return tuple(val(x) for x in p['t'])
     if 'd' in p:
       return {k: val(x) for k, x in p['d']}
+    if 'g' in p:  # generic pytree (NamedTuple / OrderedDict / struct.dataclass), children in DECLARED order
+      name, items = p['g']
+      if name == 'OrderedDict':
+        return _collections.OrderedDict((k, val(x)) for k, x in items)
+      return GENERIC[name](**{k: val(x) for k, x in items})
     raise ValueError(p)
 
   for o, spec in zip(objs, G['heap']):
@@ -262,6 +285,12 @@ class Observer:
       return {'r': self.add(v)}
     if v is None:
       return None
+    if isinstance(v, _collections.OrderedDict):
+      return {'g': ['OrderedDict', [[k, self.val(x)] for k, x in v.items()]]}
+    if isinstance(v, tuple) and hasattr(v, '_fields'):
+      return {'g': [type(v).__name__, [[f, self.val(getattr(v, f))] for f in v._fields]]}
+    if isinstance(v, Blk):
+      return {'g': ['Blk', [[f, self.val(getattr(v, f))] for f in ('w', 'b', 'c')]]}
     if isinstance(v, list):
       self.containers[id(v)] = self.containers.get(id(v), 0) + 1
       return {'l': [self.val(x) for x in v]}
@@ -347,6 +376,8 @@ def children(G, v):
     return list(enumerate(v['t']))
   if 'd' in v:
     return sorted_items(v['d'])
+  if 'g' in v:
+    return sorted_items(v['g'][1])  # flax visits a generic pytree's children sorted by key
   return None
 
 
@@ -369,6 +400,10 @@ def canon(G, hv=None):
       return ['t', [cv(x) for x in v['t']]]
     if 'd' in v:
       return ['d', [[k, cv(x)] for k, x in sorted_items(v['d'])]]
+    if 'g' in v:  # labels in traversal (sorted) order, children reported in DECLARED order: field positions matter
+      name, items = v['g']
+      done = {json.dumps(k): cv(x) for k, x in sorted_items(items)}
+      return ['g', name, [[k, done[json.dumps(k)]] for k, _ in items]]
     a = v['r']
     if a in label:
       return ['ref', label[a]]
@@ -402,7 +437,7 @@ def path_table(G, max_depth=4, max_paths=250):
       d = ['node', n, o['cls']] if 'cls' in o else ['var', n, o['vt'], o['val'], sorted(o['md'])]
     else:
       kind = next(iter(v))
-      d = [kind, len(v[kind])]
+      d = ['g', v['g'][0], [k for k, _ in v['g'][1]]] if kind == 'g' else [kind, len(v[kind])]
     out.append([list(p), d])
     if len(p) < max_depth:
       ch = children(G, v)
@@ -1585,6 +1620,102 @@ def shared_container_plans(rng, n):
 # ------------------------------------------------------------------------------------------------
 
 
+# ------------------------------------------------------------------------------------------------
+# generic pytrees (NamedTuple / OrderedDict / struct.dataclass attributes): implementation-side stream
+# ------------------------------------------------------------------------------------------------
+
+
+def gen_generic_value(rng, n_nodes, var_addrs):
+  def elem():
+    r = rng.random()
+    if r < 0.45 and var_addrs:
+      return {'r': rng.choice(var_addrs)}
+    if r < 0.65 and n_nodes:
+      return {'r': rng.randrange(n_nodes)}
+    if r < 0.85:
+      d = rng.randrange(0, 40)
+      return {'a': d if d % 4 != 3 else d - 1}
+    return {'s': rng.choice(STATICS)}
+
+  kind = rng.choice(['OrderedDict', 'OrderedDict', 'Affine', 'Quad', 'Blk'])
+  if kind == 'OrderedDict':
+    keys = rng.sample(ATTR_NAMES, rng.randrange(3, 6))  # insertion order is random, hence mostly unsorted
+  else:
+    keys = {'Affine': ['weight', 'bias', 'child'], 'Quad': ['z', 'm', 'a', 'k'], 'Blk': ['w', 'b', 'c']}[kind]
+  return {'g': [kind, [[k, elem()] for k in keys]]}
+
+
+def gen_generic_plan(rng):
+  G = gen_graph(rng, max_nodes=6, max_vars=5)
+  heap = G['heap']
+  nodes = [i for i, o in enumerate(heap) if 'cls' in o]
+  var_addrs = [i for i, o in enumerate(heap) if 'vt' in o]
+  if not nodes:
+    heap.insert(0, {'cls': 'A', 'attrs': []})
+    return gen_generic_plan(rng)
+  for _ in range(rng.randrange(1, 4)):
+    i = rng.choice(nodes)
+    nm = rng.choice(['gp', 'gq', 'layer', 'od'])
+    if all(k != nm for k, _ in heap[i]['attrs']):
+      heap[i]['attrs'].append([nm, gen_generic_value(rng, len(nodes), var_addrs)])
+  if rng.random() < 0.2:
+    G['root'] = gen_generic_value(rng, len(nodes), var_addrs)
+  paths = [p for p, _ in ref_state(G)]
+  filters = [] if rng.random() < 0.3 else [random_filter(rng, paths) for _ in range(rng.randrange(0, 3))] + ['everything']
+  perm = list(range(max(1, len(filters))))
+  rng.shuffle(perm)
+  return {'kind': 'generic', 'G': G, 'filters': filters, 'perm': perm, 'state_filters': [], 'update': None,
+          'pop_filters': None, 'self_update': True,
+          'merge_mode': rng.choice(['perm', 'perm', 'joined', 'dict']), 'merge_seed': rng.randrange(10**6)}
+
+
+def check_generic(ctx, plan):
+  """Generic pytree containers are outside the Lean model's value forms (theorem pytree_unflatten_flatten_id covers
+  their flatten/unflatten permutation); the implementation is checked directly against the property."""
+  G = plan['G']
+  case = dict(plan)
+  ctx.case({'generic': G, 'f': plan['filters'], 'perm': plan['perm'], 'mm': plan.get('merge_mode')}, nontrivial=True)
+  ctx.count('stream', 'generic-pytree')
+  res = run_impl(plan)
+  if not res['built_ok']:
+    raise RuntimeError('harness bug: generic pytree graph does not observe back')
+  before = res['before']
+  canon0, table0 = canon(before, res['before_hv']), path_table(before)
+  rt = res['rt']
+  ctx.count('generic_roundtrip', rt[0] if rt[0] == 'ok' else rt[1])
+  if rt[0] == 'ok':
+    merged = res['merged']
+    if canon(merged, res['merged_hv']) != canon0 or path_table(merged) != table0:
+      ctx.violation('roundtrip-not-isomorphic', 'merge(split(g)) is not isomorphic to g: a NamedTuple / OrderedDict / dataclass attribute came back with children under other fields', case)
+    elif not res['merged_fresh']:
+      ctx.violation('roundtrip-shares-object', 'merge(split(g)) reuses a graph node or Variable of g', case)
+    elif not res['untouched']:
+      ctx.violation('roundtrip-mutates-original', 'split/merge changed the original graph', case)
+    elif not res['graphdef_equal']:
+      ctx.violation('graphdef-not-canonical', 'graphdef(merge(split(g))) != graphdef(g)', case)
+    elif not plan['filters'] and [sort_flat(x) for x in res['states']] != [sort_flat(ref_state(before))]:
+      ctx.violation('state-wrong', 'split state differs from the reference DFS', case)
+  else:
+    filters = plan['filters']
+    ref = ref_state(before)
+    if (not filters) or all(first_match(filters, p, leaf) < len(filters) for p, leaf in ref):
+      ctx.violation('roundtrip-raises', f'split/merge raised {rt[1]} on a graph with generic pytree attributes', case)
+  cl = res['clone']
+  if cl[0] == 'ok':
+    if canon(cl[1], res['clone_hv']) != canon0 or path_table(cl[1]) != table0:
+      ctx.violation('clone-not-isomorphic', 'nnx.clone(g) is not isomorphic to g (generic pytree attribute)', case)
+    elif not res['clone_fresh'] or not res['clone_untouched']:
+      ctx.violation('clone-shares-mutable', 'nnx.clone(g) shares with / mutates g', case)
+  else:
+    ctx.violation('clone-raises', f'nnx.clone raised {cl[1]}', case)
+  st = res['state']
+  if st[0] == 'ok' and st[1] != [ref_state(before)]:
+    ctx.violation('state-wrong', 'nnx.state differs from the reference DFS on a graph with generic pytree attributes', case)
+  su = res.get('self_update')
+  if su is not None and su[0] == 'ok' and not su[1]:
+    ctx.violation('update-state-roundtrip', 'update(g, state(g)) changed g (generic pytree attribute)', case)
+
+
 def merge_order_cases(ctx, drv, rng, n):
   """mergeFlat on arbitrary permutations of arbitrary partitions (model side of `merge_any_order`) and the
   real `_merge_to_flat_state` through nnx.merge on a fixed graph is covered by the round trips; here the model
@@ -1660,6 +1791,8 @@ def run(ctx):
     check_batch(ctx, drv, batch, 'random')
 
   merge_order_cases(ctx, drv, rng, 300 if not thorough else 5000)
+  for _ in range(400 if not thorough else 6000):
+    check_generic(ctx, gen_generic_plan(rng))
   check_batch(ctx, drv, shared_container_plans(rng, 6), 'shared-container')
 
   ctx.sample(plans[len(plans) // 2])
@@ -1701,6 +1834,12 @@ def _run_case(ctx, drv, obj, stream):
     plan.setdefault('self_update', True)
     plan.setdefault('pop_filters', None)
     check_batch(ctx, drv, [plan], stream)
+  elif kind == 'generic':
+    plan = json.loads(json.dumps({k: v for k, v in case.items() if k not in ('origin',)}))
+    for o in plan['G']['heap']:
+      _norm_vt(o)
+    plan.setdefault('merge_mode', 'perm')
+    check_generic(ctx, plan)
   elif kind == 'merge_flat':
     out = drv.run([('merge_flat', [case['buckets']])])[0]
     want = [leaf for _, leaf in sorted(((tuple(p), l) for b in case['buckets'] for p, l in b), key=lambda t: t[0])]
